@@ -85,6 +85,28 @@ Theorem C19_success_writes_image : forall parse encode writable f inp outp,
 Proof. exact run_success. Qed.
 Print Assumptions C19_success_writes_image.
 
+(* History independence: the written file depends only on the current v2 file.  Whatever the
+   output path held before - nothing, the result of an earlier migration of another (or the same)
+   v2 file, any other content - the exit class and, on success, the content left at the output
+   path are the same; in particular migrate A -> out; migrate B -> out leaves what migrate B -> out
+   alone leaves (no package or value of the old outfile survives). *)
+Theorem C19_depends_only_on_input : forall parse encode writable f f' inp outp,
+  f inp = f' inp ->
+  snd (run_cmd parse encode writable f inp outp) = snd (run_cmd parse encode writable f' inp outp) /\
+  (snd (run_cmd parse encode writable f inp outp) = ExitOk ->
+   fst (run_cmd parse encode writable f inp outp) outp = fst (run_cmd parse encode writable f' inp outp) outp).
+Proof. exact run_depends_on_input. Qed.
+Print Assumptions C19_depends_only_on_input.
+
+Theorem C19_two_step_history : forall parse encode writable f inpA inpB outp,
+  inpB <> outp ->
+  let f1 := fst (run_cmd parse encode writable f inpA outp) in
+  snd (run_cmd parse encode writable f1 inpB outp) = snd (run_cmd parse encode writable f inpB outp) /\
+  (snd (run_cmd parse encode writable f1 inpB outp) = ExitOk ->
+   fst (run_cmd parse encode writable f1 inpB outp) outp = fst (run_cmd parse encode writable f inpB outp) outp).
+Proof. exact run_two_step. Qed.
+Print Assumptions C19_two_step_history.
+
 (* Non-vacuity: a tree with all four levels. *)
 Definition empty_cfg : v2config :=
   {| v_all := None; v_anchors := None; v_boilerplate_file := None; v_tags := None; v_case := None;
